@@ -97,7 +97,7 @@ def search(rep: C.Report, tier: str, broken):
                 continue
             tm = t.findMatching(vw)
             if tm[0] is None:
-                if g[0] is not None and vw >= t.vMin * (1 + 1e-6):
+                if g[0] is not None and (not vw < t.vMin * (1 + 1e-06)):
                     rep.violation("template solver returns no matching where the general solver finds one",
                                   dict(info0, vw=vw, general=[float(x) for x in g]), finding_key="C15:template-none")
                 continue
